@@ -13,7 +13,7 @@ verus! {
 broadcast use {
     vstd::std_specs::hash::group_hash_axioms,
     vstd::std_specs::iter::group_iter_axioms,
-    name_ax::axiom_topic_name_key, name_ax::axiom_subscription_name_key,
+    name_ax::axiom_topic_name_key, name_ax::axiom_subscription_name_key, sort_ax::sorted_len,
 };
 
 //@include prelude/stubs.rs
@@ -182,6 +182,143 @@ impl TopicActor {
 //@ loop 1 invariant batch_ok(n3_acc@, message_ids@, messages@, publish_time, it.index())
 //@end
 }
+
+// ======================================================================================
+// src/paging/mod.rs (proved against the same contracts in bundle B2; repeated here so that the list regions are checked against them)
+//@item src/paging/mod.rs struct Paging
+
+/// C13: effective page size: the requested size, 20 if it is zero, at most 1000
+pub open spec fn norm_size(size: int) -> int {
+    if size == 0 { 20 } else if size > 1000 { 1000 } else { size }
+}
+
+impl Paging {
+    pub closed spec fn sz(&self) -> int { self.size as int }
+    pub closed spec fn off(&self) -> Option<usize> { self.offset }
+
+//@fn src/paging/mod.rs Paging::new tags=C13
+//@ ret r
+//@ ensures[C13] r.sz() == norm_size(size as int), r.off() == offset
+//@end
+
+//@fn src/paging/mod.rs Paging::size tags=C13
+//@ ret r
+//@ ensures[C13] r == (if self.sz() < 10_000 { self.sz() } else { 10_000 })
+//@end
+
+//@fn src/paging/mod.rs Paging::offset tags=C13
+//@ ret r
+//@ ensures r == self.off()
+//@end
+
+//@fn src/paging/mod.rs Paging::to_skip tags=C13
+//@ ret r
+//@ ensures[C13] r == (match self.off() { Some(o) => o, None => 0usize })
+//@end
+
+//@fn src/paging/mod.rs Paging::next_page tags=C13
+//@ ret r
+//@ ensures[C13] r.sz() == self.sz(), r.off() == new_offset
+//@end
+
+//@fn src/paging/mod.rs Paging::next_page_from_slice_result tags=C13
+//@ ret r
+//@ # no overflow: discharged at the call sites from  len > 0 ==> skip < number of items
+//@ requires (match self.off() { Some(o) => o as int, None => 0 }) + result@.len() <= usize::MAX
+//@ ensures[C13] r.sz() == self.sz()
+//@ # next offset = offset + page length, none when the page is empty
+//@ ensures[C13] r.off() == (if result@.len() > 0 { Some(((match self.off() { Some(o) => o as int, None => 0 }) + result@.len()) as usize) } else { None })
+//@end
+}
+
+
+pub open spec fn imin(a: int, b: int) -> int { if a < b { a } else { b } }
+/// the page a list operation returns for (skip, size) over the filtered + sorted list `l`
+/// (this is the contract the three list bodies are verified against in bundle B4)
+pub open spec fn page_items<T>(l: Seq<T>, skip: int, size: int) -> Seq<T> {
+    l.subrange(imin(skip, l.len() as int), imin(skip + size, l.len() as int))
+}
+/// the offset handed back with that page (Paging::next_page_from_slice_result)
+pub open spec fn page_next<T>(l: Seq<T>, skip: int, size: int) -> Option<int> {
+    if page_items(l, skip, size).len() > 0 { Some(skip + page_items(l, skip, size).len()) } else { None }
+}
+
+// ======================================================================================
+// pagination tails of the list operations (regions; the filter/collect heads use the `cloned` adapter, which vstd
+// does not specify, and stay outside the contracts - they are covered by the bounded stand-in `paging`)
+pub mod sort_ax {
+    use super::*;
+    /// TRUSTED (A-STD): `<[T]>::sort_unstable` leaves the slice as `sorted(old)`: a permutation ordered by `Ord`
+    /// (for Topic / Subscription handles: by internal id = creation order, src/topics/topic.rs:128-147)
+    pub uninterp spec fn sorted<X>(s: Seq<X>) -> Seq<X>;
+    pub broadcast axiom fn sorted_len<X>(s: Seq<X>)
+        ensures #[trigger] sorted(s).len() == s.len();
+}
+pub use sort_ax::sorted;
+pub assume_specification<X: Ord> [<[X]>::sort_unstable] (s: &mut [X])
+    ensures final(s)@ == sorted(old(s)@);
+// TRUSTED (A-DERIVE): Topic / Subscription handles are ordered by internal id (hand-written Ord impls in topic.rs / subscription.rs)
+impl PartialEq for Topic { #[verifier::external_body] fn eq(&self, o: &Self) -> bool { self.internal_id == o.internal_id } }
+impl Eq for Topic {}
+impl PartialOrd for Topic { #[verifier::external_body] fn partial_cmp(&self, o: &Self) -> Option<std::cmp::Ordering> { Some(self.cmp(o)) } }
+impl Ord for Topic { #[verifier::external_body] fn cmp(&self, o: &Self) -> std::cmp::Ordering { self.internal_id.cmp(&o.internal_id) } }
+impl PartialEq for Subscription { #[verifier::external_body] fn eq(&self, o: &Self) -> bool { self.internal_id == o.internal_id } }
+impl Eq for Subscription {}
+impl PartialOrd for Subscription { #[verifier::external_body] fn partial_cmp(&self, o: &Self) -> Option<std::cmp::Ordering> { Some(self.cmp(o)) } }
+impl Ord for Subscription { #[verifier::external_body] fn cmp(&self, o: &Self) -> std::cmp::Ordering { self.internal_id.cmp(&o.internal_id) } }
+
+//@item src/topics/paging.rs struct TopicsPage
+impl TopicsPage {
+//@fn src/topics/paging.rs TopicsPage::new tags=C13
+//@ ret r
+//@ ensures r.topics == topics, r.offset == offset
+//@end
+}
+//@item src/subscriptions/paging.rs struct SubscriptionsPage
+impl SubscriptionsPage {
+//@fn src/subscriptions/paging.rs SubscriptionsPage::new tags=C13
+//@ ret r
+//@ ensures r.subscriptions == subscriptions, r.offset == offset
+//@end
+}
+//@item src/topics/errors.rs enum ListTopicsError drop-derive=thiserror::Error strip-attr=error
+//@item src/topics/errors.rs enum ListSubscriptionsError drop-derive=thiserror::Error strip-attr=error
+
+/// C13: the page and next offset a list operation returns for `paging` over the sorted list l
+pub open spec fn page_ok<T>(l: Seq<T>, paging: Paging, items: Seq<T>, offset: Option<usize>) -> bool {
+    let skip = match paging.off() { Some(o) => o as int, None => 0 };
+    let size = if paging.sz() < 10_000 { paging.sz() } else { 10_000 };
+    &&& items == page_items(l, skip, size)
+    &&& (match offset { Some(o) => page_next(l, skip, size) == Some(o as int), None => page_next(l, skip, size).is_none() })
+}
+
+//@fn src/topics/topic_manager.rs TopicManager::list_topics tags=C13 name=list_topics_tail
+//@ region /topics_for_project\.sort_unstable\(\);/ /^\s*Ok\(page\)\s*$/ as fn list_topics_tail(paging: Paging, skip_value: usize, mut topics_for_project: Vec<Arc<Topic>>) -> (r: Result<TopicsPage, ListTopicsError>)
+//@ requires skip_value == (match paging.off() { Some(o) => o, None => 0usize })
+//@ # a Vec never holds more than usize::MAX elements
+//@ requires topics_for_project@.len() <= usize::MAX
+//@ # C13: the page is the window [offset, offset + size) of the project's topics in creation order; next offset = offset + page length
+//@ ensures[C13] r.is_ok() && page_ok(sorted(topics_for_project@), paging, r.unwrap().topics@, r.unwrap().offset)
+//@ ghost-after /topics_for_project\.sort_unstable\(\);/ let ghost l = topics_for_project@;
+//@ proof-before[C13] /let next_page = paging\.next_page_from_slice_result/ { let size = if paging.sz() < 10_000 { paging.sz() } else { 10_000 }; assert(topics_for_project@ =~= page_items(l, skip_value as int, size)); }
+//@end
+
+//@fn src/subscriptions/subscription_manager.rs SubscriptionManager::list_subscriptions_in_project tags=C13 name=list_subscriptions_tail
+//@ region /subscriptions_for_project\.sort_unstable\(\);/ /^\s*Ok\(page\)\s*$/ as fn list_subscriptions_tail(paging: Paging, mut subscriptions_for_project: Vec<Arc<Subscription>>) -> (r: Result<SubscriptionsPage, ListSubscriptionsError>)
+//@ requires subscriptions_for_project@.len() <= usize::MAX
+//@ ensures[C13] r.is_ok() && page_ok(sorted(subscriptions_for_project@), paging, r.unwrap().subscriptions@, r.unwrap().offset)
+//@ ghost-after /subscriptions_for_project\.sort_unstable\(\);/ let ghost l = subscriptions_for_project@;
+//@ proof-before[C13] /let next_page = paging\.next_page_from_slice_result/ { let size = if paging.sz() < 10_000 { paging.sz() } else { 10_000 }; let skip = match paging.off() { Some(o) => o as int, None => 0 }; assert(subscriptions_for_project@ =~= page_items(l, skip, size)); }
+//@end
+
+//@fn src/topics/topic_actor.rs TopicActor::list_subscriptions tags=C13 name=topic_list_tail
+//@ region /let next_page = paging\.next_page_from_slice_result\(&subscriptions\);/ /^\s*Ok\(page\)\s*$/ as fn topic_list_tail(paging: Paging, subscriptions: Vec<Arc<Subscription>>) -> (r: Result<SubscriptionsPage, ListSubscriptionsError>)
+//@ requires (match paging.off() { Some(o) => o as int, None => 0 }) + subscriptions@.len() <= usize::MAX
+//@ # C13: next offset = offset + page length, none when the page is empty (the skip/take window of this list body uses
+//@ # the `cloned` adapter and is covered by the bounded stand-in only)
+//@ ensures[C13] r.is_ok() && r.unwrap().subscriptions@ == subscriptions@
+//@ ensures[C13] r.is_ok() && r.unwrap().offset == (if subscriptions@.len() > 0 { Some(((match paging.off() { Some(o) => o as int, None => 0 }) + subscriptions@.len()) as usize) } else { None })
+//@end
 
 // ======================================================================================
 // src/topics/topic_manager.rs  (State: the data behind the RwLock)
